@@ -242,6 +242,18 @@ def _ufunc_type_witnesses():
     uw("c07_type_mul_double_float", "multiply(double, float): element type is double whichever side is wider", "t23_a<double>& a, t23_a<float>& b", "nm::unwrap(view::multiply(a, b))", "double")
     uw("c07_type_less_int_double", "less(int, double): a comparison yields bool", "t23_a<int>& a, t23_a<double>& b", "nm::unwrap(view::less(a, b))", "bool")
     uw("c07_type_add_u8_scalar_long", "add(uint8 array, long scalar): element type is that of uint8 + long", "t23_a<uint8_t>& a, long b", "nm::unwrap(view::add(a, b))", "decltype(uint8_t{} + long{})")
+    # the outer variant: element type of op(lhs element, rhs element), whichever side is the wider one (4 indices for two 2-d operands)
+    def ow(id, why, params, build, want):
+        out.append(W(id, "C07", "pass", why,
+            "void f(%s){ auto v = %s; using V = decltype(v); static_assert(std::is_same_v<elem_of<V>, %s>); "
+            "static_assert(std::is_same_v<access_of<decltype(v(0,0,0,0))>, %s>); }" % (params, build, want, want)))
+    ow("c07_type_outer_mul_int_float", "outer multiply(int, float): element type is float (the RIGHT operand's type wins)", "t23_a<int>& a, t23_a<float>& b", "nm::unwrap(view::outer_multiply(a, b))", "float")
+    ow("c07_type_outer_mul_float_int", "outer multiply(float, int): element type is float", "t23_a<float>& a, t23_a<int>& b", "nm::unwrap(view::outer_multiply(a, b))", "float")
+    ow("c07_type_outer_add_i8_i64", "outer add(int8, int64): element type is that of int8 + int64", "t23_a<int8_t>& a, t23_a<int64_t>& b", "nm::unwrap(view::outer_add(a, b))", "decltype(int8_t{} + int64_t{})")
+    ow("c07_type_outer_add_i64_i8", "outer add(int64, int8): element type is that of int64 + int8", "t23_a<int64_t>& a, t23_a<int8_t>& b", "nm::unwrap(view::outer_add(a, b))", "decltype(int64_t{} + int8_t{})")
+    ow("c07_type_outer_add_double_float", "outer add(double, float): element type is double", "t23_a<double>& a, t23_a<float>& b", "nm::unwrap(view::outer_add(a, b))", "double")
+    uw("c07_type_add_int_float", "add(int, float): element type is float (the right operand's type wins)", "t23_a<int>& a, t23_a<float>& b", "nm::unwrap(view::add(a, b))", "float")
+    uw("c07_type_mul_i8_i64", "multiply(int8, int64): element type is that of int8 * int64", "t23_a<int8_t>& a, t23_a<int64_t>& b", "nm::unwrap(view::multiply(a, b))", "decltype(int8_t{} * int64_t{})")
     uw("c07_type_negative_i16", "negative(int16): element type is that of -int16", "t23_a<int16_t>& a", "nm::unwrap(view::negative(a))", "decltype(-int16_t{})")
     return out
 WITNESSES += _ufunc_type_witnesses()
@@ -323,4 +335,23 @@ WITNESSES += [
  _cap("c02_cap_bshape_bb_23", "broadcast_shape(bounded by 2, bounded by 3) can hold 3 extents", (_SV % 2) + " a, " + (_SV % 3) + " b", "nm::index::broadcast_shape(a, b)", 3),
  _cap("c02_cap_kron_fb_13", "kron_dst_reshape(fixed 1, bounded by 3) can hold 3 extents", "nmtools_array<size_t,1>& a, " + (_SV % 3) + " b", "nm::index::kron_dst_reshape(a, b)", 3),
  _cap("c02_cap_kron_bb_23", "kron_dst_reshape(bounded by 2, bounded by 3) can hold 3 extents", (_SV % 2) + " a, " + (_SV % 3) + " b", "nm::index::kron_dst_reshape(a, b)", 3),
+]
+
+# ---------------- C11: the bounds carried by broadcast_shape(constant shape, bounded-dimension shape). A size-1 extent of the constant shape is
+#                  stretched by the other operand to ANY extent, so no upper bound on the extents may be reported then; without a 1 the
+#                  largest constant extent is a sound bound
+_BS = "template <class A> using bs_t = meta::get_maybe_type_t<decltype(nm::index::broadcast_shape(std::declval<A>(), std::declval<nm::utl::static_vector<size_t,3>>()))>;\ntemplate <size_t... E> using cs_t = nmtools_tuple<meta::ct<E>...>;\n"
+def _bsw(id, shape, bounded):
+    ext = ",".join(str(x) for x in shape)
+    if bounded:
+        code = _BS + "void f(){ using R = bs_t<cs_t<%s>>; if constexpr (meta::is_clipped_index_array_v<R>) { constexpr auto b = meta::to_value_v<R>; static_assert(nm::at(b,0) >= %d && nm::at(b,1) >= %d && nm::at(b,2) >= %d, \"a reported bound covers every extent the result can have\"); } }" % (ext, shape[0], shape[1], shape[2])
+        why = "broadcast_shape(constant (%s), bounded-dimension shape): a reported per-extent bound is at least the constant extent" % ext
+    else:
+        code = _BS + "void f(){ using R = bs_t<cs_t<%s>>; static_assert(!meta::is_clipped_index_array_v<R> && !meta::is_constant_index_array_v<R>, \"a size-1 axis stretches to any extent: no static bound on the extents\"); }" % ext
+        why = "broadcast_shape(constant (%s) with a size-1 axis, bounded-dimension shape): no static bound on the extents" % ext
+    return W(id, "C11", "pass", why, code)
+WITNESSES += [
+ _bsw("c11_bshape_const_132_bounded", (1,3,2), False), _bsw("c11_bshape_const_312_bounded", (3,1,2), False), _bsw("c11_bshape_const_513_bounded", (5,1,3), False),
+ _bsw("c11_bshape_const_321_bounded", (3,2,1), False), _bsw("c11_bshape_const_123_bounded", (1,2,3), False), _bsw("c11_bshape_const_231_bounded", (2,3,1), False),
+ _bsw("c11_bshape_const_232_bounded", (2,3,2), True), _bsw("c11_bshape_const_423_bounded", (4,2,3), True),
 ]
